@@ -16,8 +16,8 @@
    on more occasions (slack, unsubscribes); that is never an error here.  The record is dropped when the
    peer's last connection closes (lenient: the statements do not speak about reconnects). *)
 EXTENDS TraceIO, FiniteSets, Integers
-VARIABLES l, cfg, conns, gsk, subs, mesh, trk, fan, keep, neg, low, bo, now, viol
-vars == <<l, cfg, conns, gsk, subs, mesh, trk, fan, keep, neg, low, bo, now, viol>>
+VARIABLES l, cfg, conns, gsk, subs, mesh, trk, fan, keep, neg, low, sc, bo, now, viol
+vars == <<l, cfg, conns, gsk, subs, mesh, trk, fan, keep, neg, low, sc, bo, now, viol>>
 
 Range(s) == {s[i] : i \in 1..Len(s)}
 R == Rec[l]
@@ -32,7 +32,7 @@ Max(a, b) == IF a > b THEN a ELSE b
 Min(a, b) == IF a < b THEN a ELSE b
 
 Init == /\ l = 1 /\ cfg = [np |-> 0, nt |-> 0] /\ conns = <<>> /\ gsk = {} /\ subs = {} /\ mesh = <<>> /\ trk = <<>>
-        /\ fan = <<>> /\ keep = {} /\ neg = {} /\ low = {} /\ bo = <<>> /\ now = 0 /\ viol = {} /\ InitReg
+        /\ fan = <<>> /\ keep = {} /\ neg = {} /\ low = {} /\ sc = <<>> /\ bo = <<>> /\ now = 0 /\ viol = {} /\ InitReg
 
 Reset == /\ R.e = "reset"
          /\ cfg' = [np |-> R.np, nt |-> R.nt, hi |-> R.hi, explicit |-> R.explicit, allowed |-> R.allowed,
@@ -41,12 +41,14 @@ Reset == /\ R.e = "reset"
          /\ gsk' = {} /\ subs' = {} /\ keep' = {} /\ neg' = {} /\ low' = {} /\ now' = 0 /\ viol' = {}
          /\ mesh' = [t \in 0..(R.nt - 1) |-> {}] /\ fan' = [t \in 0..(R.nt - 1) |-> {}]
          /\ trk' = [p \in 0..(R.np - 1) |-> {}]
+         /\ sc' = [p \in 0..(R.np - 1) |-> 0]
          /\ bo' = [t \in 0..(R.nt - 1) |-> [p \in 0..(R.np - 1) |-> 0]]
 
 (* ---- what the event shows ---- *)
 OMesh == [t \in Topics |-> Range(R.mesh[t + 1])]
 OFan == [t \in Topics |-> Range(R.fan[t + 1])]
 OTrk == [p \in Peers |-> Range(R.trk[p + 1])]
+OSc == [p \in Peers |-> IF \E x \in Range(R.sc) : x[1] = p THEN (CHOOSE x \in Range(R.sc) : x[1] = p)[2] ELSE 0]
 OBo == {<<x[1], x[2]>> : x \in Range(R.bo)}                    \* <<topic, peer>> the router reports as backed off
 SentPrunes == Range(R.pr)                                       \* <<peer, topic, secs>>
 RecvPrunes == IF R.e = "rpc" /\ Has(R, "prune") THEN Range(R.prune) ELSE {}   \* <<topic, secs>> from R.p
@@ -94,6 +96,10 @@ StepViolations ==
   \cup (IF R.e = "rpc" /\ GraftTopics = {} /\ ~(OTrk[p] \ trk[p] \subseteq SubT /\ trk[p] \ OTrk[p] \subseteq UnsubT)
         THEN {"C36_UnrequestedChange"} ELSE {})
   (* C32 (router level): whoever the protocol says is still backed off is reported as backed off *)
+  (* C32 (router level): a GRAFT the router could have accepted, sent while the protocol-level backoff runs, costs score *)
+  \cup (IF \E t \in GraftTopics : t \in Topics /\ t \in subs /\ p \notin mesh[t] /\ p \in gsk /\ p \notin Explicit /\ now < bo[t][p]
+                                  /\ ~(OSc[p] < sc[p])
+        THEN {"C32_GraftInBackoffNotPenalised"} ELSE {})
   \cup (IF \E t \in Topics : \E q \in Peers : NewNow < NewBo[t][q] /\ <<t, q>> \notin OBo THEN {"C32_BackoffForgotten"} ELSE {})
 
 Step == /\ R.e \in OpNames
@@ -101,7 +107,7 @@ Step == /\ R.e \in OpNames
         /\ gsk' = (IF R.e = "kind" /\ R.k = "g" THEN gsk \cup {R.p} ELSE gsk) \ Gone
         /\ subs' = Range(R.subs)
         /\ mesh' = OMesh /\ trk' = OTrk /\ fan' = OFan
-        /\ keep' = Range(R.keep) /\ neg' = Range(R.neg) /\ low' = Range(R.low)
+        /\ keep' = Range(R.keep) /\ neg' = Range(R.neg) /\ low' = Range(R.low) /\ sc' = OSc
         /\ now' = NewNow /\ bo' = NewBo
         /\ viol' = StepViolations
         /\ UNCHANGED cfg
@@ -129,4 +135,5 @@ C36_AllOrNothing == "C36_RequestPartiallyApplied" \notin viol
 C36_OnlyRequested == "C36_UnrequestedChange" \notin viol
 (* ---- C32 at router level ---- *)
 C32_StillBackedOff == "C32_BackoffForgotten" \notin viol
+C32_GraftInBackoffPenalised == "C32_GraftInBackoffNotPenalised" \notin viol
 ====
